@@ -276,19 +276,36 @@ def explore_passes(ctx, n):
 
         un.io.delete = fake_delete
         hist = []
+        edits = []
+        stype = "F"
         for p in range(3):
-            un.db = w.StorageNode.get(id=row.id)
+            if p and rng.random() < 0.6:
+                # the operator edits the node record between two passes: the next pass decides on the record as it is now
+                if rng.random() < 0.3:
+                    stype = "A" if stype == "F" else "F"
+                    w.StorageNode.update(storage_type=stype).where(w.StorageNode.id == row.id).execute()
+                    edits.append((p, "storage_type", stype))
+                else:
+                    mn = rng.choice([0, 1, 2, 5, 8])
+                    w.StorageNode.update(min_avail_gb=float(mn)).where(w.StorageNode.id == row.id).execute()
+                    edits.append((p, "min_avail_gb", mn))
+            # (the main loop hands every node its freshly read record once per iteration)
+            un.reinit(w.StorageNode.get(id=row.id))
             before = free[0]
             deleted_per_pass.append([])
             un.update()
             hist.append((before, list(deleted_per_pass[-1])))
             ctx.count("passes")
-            short = mn * G - before
-            rp = {"family": "passes", "min_avail_gib": mn, "copy_size": size, "copies": nfiles, "stored_avail_bytes_before_first_pass": stored, "passes": [[b, d] for b, d in hist]}
+            short = mn * G - before if stype == "F" else 0
+            rp = {"family": "passes", "min_avail_gib": mn, "storage_type": stype, "record_edits": edits, "copy_size": size, "copies": nfiles, "stored_avail_bytes_before_first_pass": stored,
+                  "passes": [[b, d] for b, d in hist]}
             got = deleted_per_pass[-1]
             need = 0 if short <= 0 else -(-short // size)
+            if stype == "A" and got:
+                ctx.fail("C15:archive-node-touched", f"pass {p}: the node is an archive node now (edits {edits}) and removable copies {got} were deleted", rp)
+                break
             if short <= 0 and got:
-                ctx.fail("C15:sufficient-space-touched", f"pass {p}: {before} bytes free, minimum {mn * G}: removable copies {got} were deleted although free space is sufficient (passes so far: {hist})", rp)
+                ctx.fail("C15:sufficient-space-touched", f"pass {p}: {before} bytes free, minimum {mn * G} (record edits {edits}): removable copies {got} were deleted although free space is sufficient (passes so far: {hist})", rp)
                 break
             if short > 0 and len(got) != min(need, nfiles - sum(len(d) for _, d in hist[:-1])):
                 ctx.fail("C15:selection", f"pass {p}: {before} bytes free, minimum {mn * G}, copies of {size} bytes: {len(got)} deleted, {need} needed (passes so far: {hist})", rp)
